@@ -400,8 +400,19 @@ func (r *Report) Finish() int {
 		}
 	}
 	for _, rd := range r.Rules {
-		if perRule[rd.ID] < rd.Min {
-			r.Unresolve(rd.ID, fmt.Sprintf("rule matched %d instance(s), fewer than the %d confirmed by hand — the rule no longer recognises its constructs (vacuous pass refused)", perRule[rd.ID], rd.Min))
+		// vacuity guard.  The hand-confirmed instance count is a reference, not an invariant of the code: merging
+		// two sites into one, or letting the compiler prove one more bounds check, legitimately lowers it.  The
+		// rule is refused only when it has lost most of its instances (fewer than 60 %, or fewer than count-1 for
+		// small rules, and never zero) — that is what "the rule no longer recognises its constructs" looks like.
+		floor := rd.Min
+		switch {
+		case rd.Min >= 4:
+			floor = (rd.Min*6 + 9) / 10
+		case rd.Min >= 2:
+			floor = rd.Min - 1
+		}
+		if perRule[rd.ID] < floor {
+			r.Unresolve(rd.ID, fmt.Sprintf("rule matched %d instance(s); %d were confirmed by hand and fewer than %d means the rule no longer recognises its constructs (vacuous pass refused)", perRule[rd.ID], rd.Min, floor))
 		}
 	}
 	var viol []Ob
